@@ -17,7 +17,7 @@ from vf import common, htf, progs
 
 PID = 'C09'
 TS_MODES = ['none', 'dut', 'lambda', 'raise']
-X_MODES = ['ok', 'fail', 'raise', 'hang', 'skip', 'plugfail', 'abort', 'reenter', 'setdut', 'cbreenter', 'abort_runif', 'sysexit', 'sigint']
+X_MODES = ['ok', 'fail', 'raise', 'hang', 'skip', 'plugfail', 'abort', 'reenter', 'setdut', 'cbreenter', 'abort_runif', 'sysexit', 'sigint', 'profskip']
 
 
 class CbBoom(Exception):
@@ -96,6 +96,8 @@ def build_test(state):
     # an abort that arrives between two phases: issued (synchronously) while the executor decides whether to run y
     if state['plan'][1] == 'abort_runif':
       state['test'].abort_from_sig_int()
+    if state['plan'][1] == 'profskip':
+      return False       # (a profiled run in which one phase is never started)
     return True
 
   @h.PhaseOptions(run_if=y_run_if)
@@ -129,7 +131,7 @@ def expected_outcome(plan):
     return 'ERROR'
   return {'ok': 'PASS', 'setdut': 'PASS', 'fail': 'FAIL', 'raise': 'ERROR', 'hang': 'TIMEOUT', 'skip': 'PASS',
           'plugfail': 'ERROR', 'abort': 'ABORTED', 'reenter': 'PASS', 'cbreenter': 'PASS', 'abort_runif': 'ABORTED', 'sysexit': 'ERROR',
-          'sigint': 'ABORTED'}[xm]
+          'sigint': 'ABORTED', 'profskip': 'PASS'}[xm]
 
 
 def check_record(rec, plan, state_at_cb):
@@ -218,10 +220,20 @@ def run_history(hist, raising):
     del state['log'][:]
     del calls[:]
     res = exc = None
+    prof = None
+    if plan[1] == 'profskip':
+      import os, tempfile  # pylint: disable=g-import-not-at-top,multiple-imports
+      prof = os.path.join(tempfile.gettempdir(), 'vf-c09-prof-%d' % os.getpid())
     try:
-      res = test.execute(test_start=make_test_start(state))
+      if prof:
+        res = test.execute(test_start=make_test_start(state), profile_filename=prof)
+      else:
+        res = test.execute(test_start=make_test_start(state))
     except BaseException as e:  # pylint: disable=broad-except
       exc = e
+    finally:
+      if prof and os.path.exists(prof):
+        os.remove(prof)
     h.Test.HANDLED_SIGINT_ONCE = False
     tag = 'run%d:%s/%s' % (run_idx, plan[0], plan[1])
     if plan[1] == 'sigint' and plan[0] != 'raise':
